@@ -282,6 +282,67 @@ class Block2Stream(Stream):
                 "print(s._obj(d).solve(**kw).S)\n")
 
 
+import c10  # noqa: E402
+
+
+class NetSweepStream(c10.SweepMonStream):
+    """reflective circuits (random components, feedback through single and multiple links) in which a phase shifter is
+    swept: slice k of the result against the model's solve of the netlist of point k"""
+    name = "net_sweep"
+    imports = "Field Matrix Base Kernel Network Solve Corr"
+    case_type = "nets_case"
+    verdict_fn = "nets_verdict"
+    shard_size = 10
+
+    def generate(self, rng, tier):
+        out = []
+        for d in super().generate(rng, tier):
+            d["mon"] = []
+            out.append(d)
+        out = out[:50 if tier == "quick" else 800]
+        # directed: reflector - swept phase section - reflector, single links (the round trip changes along the sweep)
+        for _ in range(10 if tier == "quick" else 100):
+            base = copy.deepcopy(out[rng.randrange(len(out))])
+            refl = []
+            while len(refl) < 2:
+                g = netlib.gen_netlist(rng, max_comps=1, max_pins=2)
+                if g["comps"][0]["n"] == 2:
+                    g["comps"][0].pop("bare", None)
+                    refl.append(g["comps"][0])
+            base["comps"] = [base["comps"][0], refl[0], refl[1]]
+            base["conns"] = [[[1, 1], [0, 0]], [[0, 1], [2, 0]]]
+            base["expo"] = [[1, 0, "in"], [2, 1, "out"]]
+            base["exc"] = {}
+            base["style"] = "with"
+            out.append(base)
+        return out
+
+    def run(self, d):
+        names = [x[2] for x in d["expo"]]
+        try:
+            sol, sts = netlib.build(d)
+            kw = {"PS": np.array(d["sweep"])}
+            if d["second"] == "scalar":
+                kw["wl"] = 1.25
+            elif d["second"] == "len1":
+                kw["wl"] = np.array([1.25])
+            mod = sol.solve(**kw)
+            if sorted(p.name for p in mod.pin_dic) != sorted(names) or np.asarray(mod.S).shape[0] != len(d["sweep"]):
+                raise ValueError("pins / sweep length")
+            obs = [netlib.obs_matrix_lit(netlib.observe_expo(mod, names, k)) for k in range(len(d["sweep"]))]
+        except Exception:
+            obs = ["Raised"] * len(d["sweep"])
+        return clist(netlib.net_case_lit(self._point(d, k), obs[k]) for k in range(len(d["sweep"])))
+
+    def nontrivial(self, d):
+        return len(d["conns"]) >= 1 and len(d["expo"]) >= 1
+
+    def py_repro(self, d):
+        return ("import sys; sys.path.insert(0,'/verif/harness'); import c04, netlib, json, numpy as np\n"
+                f"d=json.loads({json.dumps(d)!r})\n"
+                "sol,sts=netlib.build(d); m=sol.solve(PS=np.array(d['sweep'])); print(m.S)\n")
+
+
 TRUSTED = [
     "Coq 8.16.1 kernel + vm_compute",
     "hand-written models Sweep.v / Params.v tied to /repo (a) for ALL assignments with distinct names by the translation "
@@ -297,7 +358,7 @@ TRUSTED = [
 if __name__ == "__main__":
     import translate_sweep
     from common import source_obligation
-    main("C04", [SweepStream(), BlockStream(), Block2Stream()],
+    main("C04", [SweepStream(), BlockStream(), Block2Stream(), NetSweepStream()],
          source_obligations=[source_obligation(
              "SweepSrc_C04", translate_sweep.translate, "SweepSrcProof.v",
              ["solver_normalise_src_is_normalise", "model_sweep_src_is_sweep_solve"])],
